@@ -58,7 +58,8 @@ func tClient(cli string, cache tlcp.SessionCache) *tlcp.Config {
 func cvBitsOf(cli string) string {
 	// wrongkey: signed with a key that is not the certificate's; p256: an ECDSA P-256 signature
 	// is not an SM2 signature under the certificate's key (the independent check agrees)
-	if cli == "wrongkey" || cli == "p256" {
+	switch cli {
+	case "wrongkey", "p256", "rsa-otherkey", "rsaoth-otherkey", "p256-otherkey", "ed-otherkey":
 		return "01"
 	}
 	return "11"
@@ -136,16 +137,13 @@ func tlcpScript(s scen) (string, string) {
 		err = srv.Handshake()
 	}()
 
-	sig, enc := st.CliSig, st.CliEnc
-	if s.cli == "s-untrusted-nocv" {
-		sig, enc = st.CliOthSig, st.CliOthEnc
-	}
+	pl := scriptPlanOf(s.cli)
 	ccfg := &tlcp.Config{
-		Certificates: []tlcp.Certificate{pair.TCert(sig), pair.TCert(enc)},
+		Certificates: []tlcp.Certificate{pair.TCert(pl.sig), pair.TCert(pl.enc)},
 		CipherSuites: []uint16{suiteID(s.suite)}, Time: pki.NowFn, RootCAs: st.Root.Pool,
 	}
 	sc := tlcp.NewVerifScript("client", ce, ccfg)
-	cvBits, finOK := "11", true
+	cvBits, finOK := pl.cvBits, pl.finOK
 
 	// everything the script does runs under a watchdog: closing the pipe unblocks it
 	fin := make(chan struct{})
@@ -164,46 +162,15 @@ func tlcpScript(s scen) (string, string) {
 				break
 			}
 		}
-		req := sc.CertRequested
-		sendCert, certOpts, sendCV := req, (*tlcp.VerifSendOpts)(nil), req
-		var cvOpts *tlcp.VerifSendOpts
-		switch s.cli {
-		case "s-good":
-		case "s-nocv", "s-untrusted-nocv":
-			sendCV = false
-		case "s-cvotherkey":
-			cvOpts = &tlcp.VerifSendOpts{SignKey: st.OtherSig.Key}
-			cvBits = "01"
-		case "s-cvothertr":
-			cvOpts = &tlcp.VerifSendOpts{Body: signOther(sig.Key)}
-			cvBits = "10"
-		case "s-cvnocert":
+		sendCert, sendCV := pl.decide(sc.CertRequested)
+		var certOpts, cvOpts *tlcp.VerifSendOpts
+		if pl.emptyCerts {
 			certOpts = &tlcp.VerifSendOpts{EmptyCerts: true}
-			sendCV = true
-			cvBits = "01"
-		case "s-cvnomsg":
-			sendCert, sendCV = false, true
-			cvBits = "01"
-		case "s-unreq":
-			sendCert, sendCV = true, true
-		case "s-nomsg":
-			sendCert, sendCV = false, false
-		case "s-onecert-nocv":
-			certOpts = &tlcp.VerifSendOpts{Certificates: [][]byte{sig.DER}}
-			sendCV = false
-		case "s-onecert":
-			certOpts = &tlcp.VerifSendOpts{Certificates: [][]byte{sig.DER}}
-		case "s-edsig":
-			certOpts = &tlcp.VerifSendOpts{Certificates: [][]byte{st.EdSig.DER, enc.DER}}
-			cvBits = "01"
-		case "s-garbage":
-			certOpts = &tlcp.VerifSendOpts{Certificates: [][]byte{{0x30, 0x03, 0x01, 0x01, 0xff}, enc.DER}}
-			cvBits = "01"
-		case "s-badfin":
-			finOK = false
-		case "s-empty":
-			certOpts = &tlcp.VerifSendOpts{EmptyCerts: true}
-			sendCV = false
+		} else if pl.certs != nil {
+			certOpts = &tlcp.VerifSendOpts{Certificates: pl.certs}
+		}
+		if pl.cvKey != nil {
+			cvOpts = &tlcp.VerifSendOpts{SignKey: pl.cvKey}
 		}
 		if sendCert {
 			if sc.Send("Certificate", certOpts) != nil {
@@ -214,6 +181,9 @@ func tlcpScript(s scen) (string, string) {
 			return
 		}
 		if sendCV {
+			if pl.cvBody != nil {
+				cvOpts = &tlcp.VerifSendOpts{Body: pl.cvBody(transcriptHash(sc.Transcript()))}
+			}
 			if sc.Send("CertificateVerify", cvOpts) != nil {
 				return
 			}
